@@ -22,7 +22,7 @@ func vC07Flush(reuse bool) {
 	if !s.h.honour[0] {
 		when = ndChoice("whenA", 4)
 	}
-	s.ch.fromPeer <- vReq(0, t, markA)
+	s.ch.fromPeer <- vReqKind(ndChoice("kindA", vNReqKinds), 0, t, markA)
 	<-s.h.started
 	if when == 0 {
 		s.h.release[0] <- vResFor(0, payA, "")
